@@ -433,6 +433,42 @@ def c3_purge(fb, rep):
     rep.ob(clause, 'K10 sibling agreement', 'the purge covers start, stop and stale results', a >= want and b >= want, '', 'purged: %s / %s' % (sorted(a), sorted(b)), '')
 
 
+
+def _same_job_only(f, b):
+    """True if block b is reachable when the two job ids compared on the way to it are equal and unreachable when they differ
+    (whatever the comparison looks like: ==, !(a != b), early return under !=)."""
+    def key(o):
+        o = strip_cast(o)
+        if isinstance(o, dict) and o.get('k') == 'var':
+            return ('var', o.get('id'))
+        if isinstance(o, dict) and ap(o):
+            return ('ap', ap(o))
+        return None
+    own, other = set(), set()
+    for c, side in list(G.guard_trees(f, set(f.blocks), b)) + G._whole_conditions(f, set(f.blocks), b):
+        for n in walk(c):
+            if isinstance(n, dict) and n.get('k') == 'bin' and n.get('op') in ('==', '!='):
+                l, r = strip_cast(n.get('l')), strip_cast(n.get('r'))
+                for a, o in ((l, r), (r, l)):
+                    if isinstance(a, dict) and a.get('k') == 'mem' and (ap(a) or '').endswith('.jobId') and key(o) is not None and key(a) not in other:
+                        own.add(key(a))
+                        other.add(key(o))
+    other -= own
+    if not other:
+        return False
+
+    def leaf(v):
+        def lf(t):
+            k_ = key(t)
+            if k_ in own:
+                return ('v', 5)
+            if k_ in other:
+                return ('v', v)
+            return None
+        return lf
+    return G.excluded_under(f, b, leaf(6)) and G.excluded_under(f, b, leaf(-1)) and not G.excluded_under(f, b, leaf(5))
+
+
 # ----------------------------------------------------------------------------- .4
 
 def c4_jobid(fb, rep):
@@ -444,13 +480,14 @@ def c4_jobid(fb, rep):
         rep.floor(clause, 'throw sites in the result handler', len(throws), 1)
         for b, i, e in throws:
             g = G.guards_of(f, set(f.blocks), b)
-            ok = any('jobId' in x and '==' in x and not x.startswith('!') for x in g)
+            ok = _same_job_only(f, b)
             rep.ob(clause, 'K4 guard', 'helper result is accepted only for the current job id', ok, R.site(f, e), 'guards %s' % g, f.sname)
     sr = fb.find1('WorkerThread::sendReportResult')
     if rep.need(clause, sr, 'WorkerThread::sendReportResult'):
         for b, i, e in sr.calls('Communicator::sendReportResult'):
             g = G.guards_of(sr, set(sr.blocks), b)
-            ok = any('hasResult' in x and x.startswith('!') for x in g) and any('jobId' in x and '==' in x and not x.startswith('!') for x in g)
+            sent = lambda v_: (lambda t_: ('v', v_) if t_.get('k') == 'mem' and (ap(t_) or '').endswith('.hasResult') else None)
+            ok = G.excluded_under(sr, b, sent(1)) and not G.excluded_under(sr, b, sent(0)) and _same_job_only(sr, b)
             rep.ob(clause, 'K4 guard', 'a helper reports at most one result, and only for its current job id', ok, R.site(sr, e), 'guards %s' % g, sr.sname)
             w = sr.path_avoiding((b, i), R.at_exit, lambda ev: ev is not None and ev.get('k') == 'asg' and ap(ev.get('l')) == 'this.hasResult' and (ev.get('r') or {}).get('cv') == 1)
             rep.ob(clause, 'K2 must-pass-through', 'sendReportResult marks the result as sent', w is None, R.site(sr, e), '', sr.sname)
